@@ -12,6 +12,7 @@ From Typ Require Export Lib.Base Arrays.Array2D.
 Local Open Scope Z_scope.
 
 Inductive ctor :=
+| CZero                                 (* var a Array2D[int]: the zero value (w = h = 0, nil slice) *)
 | CNew                                  (* New2D(w, h) *)
 | CFilled (v : Z)                       (* New2DFilled(w, h, v) *)
 | CJagged (rows : list (list Z)).       (* New2DFromJagged(w, h, rows) *)
@@ -66,10 +67,21 @@ Fixpoint apply_delta (g : list Z) (d : delta) : option (list Z) :=
       end
   end.
 
+(* The property says "panics", not which panic: panic kinds are NOT compared
+   (the harness derives the kind from the panic's type and message text, which
+   the property does not fix).  Panicked / did not panic, and every value, are. *)
+Definition res_eqb {X} (eqb : X -> X -> bool) (x y : result X) : bool :=
+  match x, y with
+  | Ok a, Ok b => eqb a b
+  | Panic _, Panic _ => true
+  | _, _ => false
+  end.
+
 Definition grid_matches (a : array2d Z) (og : list Z) : bool :=
   result_eqb (list_eqb Z.eqb) (grid_of a) (Ok og).
 
-Definition opt_panic_eqb (p q : option panic_kind) : bool := option_eqb panic_kind_eqb p q.
+Definition opt_panic_eqb (p q : option panic_kind) : bool :=
+  match p, q with Some _, Some _ | None, None => true | _, _ => false end.
 
 (* the writes made while holding window [w]; any panic is reported *)
 Fixpoint run_wops (a : array2d Z) (w : window) (ws : list wop) : amut :=
@@ -90,7 +102,7 @@ Fixpoint run_wops (a : array2d Z) (w : window) (ws : list wop) : amut :=
 Definition run_window (a : array2d Z) (rw : result window) (ws : list wop)
            (r : result (list Z)) (after : list Z) : option (array2d Z) :=
   match rw, r with
-  | Panic k, Panic k' => if panic_kind_eqb k k' then Some a else None
+  | Panic _, Panic _ => Some a
   | Ok w, Ok seen =>
       if list_eqb Z.eqb (win_read (cells a) w) seen then
         match run_wops a w ws with
@@ -104,7 +116,7 @@ Definition run_window (a : array2d Z) (rw : result window) (ws : list wop)
 (* one call: the model's array afterwards, or None if an observation differs *)
 Definition step (a : array2d Z) (o : op) (b : obs) : option (array2d Z * delta) :=
   match o, b with
-  | OGet x y, BGet r => if result_eqb Z.eqb (get a x y) r then Some (a, []) else None
+  | OGet x y, BGet r => if res_eqb Z.eqb (get a x y) r then Some (a, []) else None
   | OSet x y v, BMut p d =>
       let '(a', p') := set a x y v in if opt_panic_eqb p' p then Some (a', d) else None
   | OFill x1 y1 x2 y2 v, BMut p d =>
@@ -138,6 +150,7 @@ Fixpoint run_steps (a : array2d Z) (og : list Z) (steps : list (op * obs)) : boo
 
 Definition construct (c : case) : result (array2d Z) :=
   match c_ctor c with
+  | CZero => Ok (Arr 0 0 [])
   | CNew => new2d 0 (c_w c) (c_h c)
   | CFilled v => new2d_filled 0 (c_w c) (c_h c) v
   | CJagged rows => new2d_from_jagged 0 (c_w c) (c_h c) rows
@@ -145,7 +158,7 @@ Definition construct (c : case) : result (array2d Z) :=
 
 Definition check_case (c : case) : bool :=
   match construct c, c_grid0 c with
-  | Panic k, Panic k' => panic_kind_eqb k k' && match c_steps c with [] => true | _ => false end
+  | Panic _, Panic _ => match c_steps c with [] => true | _ => false end
   | Ok a, Ok g0 => (width a =? c_w c) && (height a =? c_h c) && grid_matches a g0 && run_steps a g0 (c_steps c)
   | _, _ => false
   end.
